@@ -146,6 +146,7 @@ type Frame struct {
 
 	modLocs []modLoc // own modifies, evaluated at entry (top only)
 
+	selfVal       string    // function value of the dynamic call being translated ("self")
 	loopCon       *Contract // own contract supplying loop invariants (interface-contract mode)
 	loopNamesBase map[string]*specBinding
 }
